@@ -1,7 +1,7 @@
 (* Lemmas for C39 (model/StateProof.v): exact characterisation of Verifier.Verify's acceptance,
    soundness w.r.t. the committed participants, completeness of the honest prover. *)
 From Coq Require Import NArith ZArith List Bool Lia ZifyN ZifyNat ZifyBool.
-From Verif.model Require Import SpWeights StateProof.
+From Verif.model Require Import SpWeights StateProof StateProofSpec.
 From Verif.proofs Require Import SpWeightsProofs.
 Import ListNotations.
 Open Scope N_scope.
@@ -48,37 +48,6 @@ Proof. intros. unfold wadd. apply N.mod_le. unfold W64. lia. Qed.
 Lemma wadd_small : forall a b, a + b < W64 -> wadd a b = a + b.
 Proof. intros. unfold wadd. apply N.mod_small. assumption. Qed.
 
-(* the conditions a vector commitment scheme has to meet (discharged for merklearray by C37:
-   proofs/StateProofMerkle.v) *)
-Section VCSpec.
-  Variables E Dig Prf : Type.
-  Variable root : list E -> Dig.
-  Variable prove : list E -> list N -> option Prf.
-  Variable vfy : Dig -> list (N * E) -> Prf -> bool.
-  Variable depth : Prf -> N.
-
-  (* the honest proof for a non-empty set of in-range positions verifies for the honest claims
-     and carries a depth the state-proof verifier admits *)
-  Definition vc_complete : Prop :=
-    forall arr idxs elems,
-      idxs <> [] -> (forall i, In i idxs -> (N.to_nat i < length arr)%nat) ->
-      (length arr <= 1024)%nat ->
-      NoDup (map fst elems) ->
-      (forall p e, In (p, e) elems <-> In p idxs /\ nth_error arr (N.to_nat p) = Some e) ->
-      exists pf, prove arr idxs = Some pf /\ vfy (root arr) elems pf = true /\ depth pf <= MaxTreeDepth.
-
-  (* position binding: every accepted claim (i, e) is the element of the committed array at the
-     position [posmap arr pf i]; [posmap] is the identity when the proof carries the depth of
-     the committed tree ([treedepth arr]) -- C37_sound_vc; for other depths it is the
-     bit-reversal relabelling of C37_sound_vc_any_depth *)
-  Definition vc_sound (treedepth : list E -> N) (posmap : list E -> Prf -> N -> N) : Prop :=
-    (forall arr elems pf, vfy (root arr) elems pf = true ->
-        forall i e, In (i, e) elems -> nth_error arr (N.to_nat (posmap arr pf i)) = Some e) /\
-    (forall arr pf i, depth pf = treedepth arr -> posmap arr pf i = i).
-End VCSpec.
-Arguments vc_complete {E Dig Prf}.
-Arguments vc_sound {E Dig Prf}.
-
 Section Proofs.
   Variables PK Sig Msg Dig Prf : Type.
   Variable salt_ok : Sig -> N -> bool.
@@ -92,6 +61,8 @@ Section Proofs.
   Variable vcp_verify : Dig -> list (N * participant PK) -> Prf -> bool.
 
   Local Notation verifyM := (verify salt_ok commit_ok sig_ok coin prf_depth vcs_verify vcp_verify).
+  Local Notation coins_in_slots := (StateProofSpec.coins_in_slots (PK:=PK) (Sig:=Sig) coin).
+  Local Notation accept_facts := (StateProofSpec.accept_facts salt_ok commit_ok sig_ok coin prf_depth vcs_verify vcp_verify).
 
   (* lia generalises over every hypothesis in sight and so drags unrelated section variables into
      the proof terms: drop the ones the goal does not mention first *)
@@ -100,13 +71,6 @@ Section Proofs.
   Ltac lia_ := prune; lia.
 
   (* ================================================================ 1. acceptance, exactly *)
-  (* j0-th and following coins fall into the slots of the listed positions *)
-  Definition coins_in_slots (sd : seed Msg Dig) (rv : list (N * reveal PK Sig)) (ps : list N) (j0 : nat) : Prop :=
-    forall i pos, nth_error ps i = Some pos ->
-      exists r, lookup pos rv = Some r /\
-        sc_L (rv_slot r) <= coin sd (j0 + i)%nat /\
-        coin sd (j0 + i)%nat < wadd (sc_L (rv_slot r)) (pt_weight (rv_part r)).
-
   Lemma coinLoop_ok_iff : forall sd rv ps j,
     coinLoop coin sd rv ps j = SOk tt <-> coins_in_slots sd rv ps j.
   Proof.
@@ -119,9 +83,9 @@ Section Proofs.
         destruct i as [|i'].
         * cbn [nth_error] in Hi. inversion Hi; subst p. exists r. rewrite Nat.add_0_r.
           split; [exact EL|]. lia_.
-        * cbn [nth_error] in Hi. apply IH in H. unfold coins_in_slots in H. destruct (H i' p Hi) as (r' & L' & C1 & C2).
+        * cbn [nth_error] in Hi. apply IH in H. unfold StateProofSpec.coins_in_slots in H. destruct (H i' p Hi) as (r' & L' & C1 & C2).
           exists r'. replace (j + S i')%nat with (S j + i')%nat by lia_. auto.
-      + intros H. unfold coins_in_slots in H.
+      + intros H. unfold StateProofSpec.coins_in_slots in H.
         destruct (H 0%nat pos eq_refl) as (r & EL & C1 & C2). rewrite Nat.add_0_r in C1, C2.
         rewrite EL.
         replace ((sc_L (rv_slot r) <=? coin sd j) && (coin sd j <? wadd (sc_L (rv_slot r)) (pt_weight (rv_part r)))) with true by lia_.
@@ -146,26 +110,10 @@ Section Proofs.
       + split; [discriminate|]. intros H. destruct (H p0 r0 (or_introl eq_refl)). congruence.
   Qed.
 
-  Definition seed_of (v : verifier Dig) (data : Msg) (s : stateproof PK Sig Dig Prf) : seed Msg Dig :=
-    mkSeed (v_partcom v) (v_lnpw v) (sp_sigcommit s) (sp_sw s) data.
-
-  (* everything Verify checks *)
-  Definition accept_facts (v : verifier Dig) (round : N) (data : Msg) (s : stateproof PK Sig Dig Prf) : Prop :=
-    prf_depth (sp_sigproofs s) <= MaxTreeDepth /\ prf_depth (sp_partproofs s) <= MaxTreeDepth /\
-    verifyWeights (Z.of_N (sp_sw s)) (Z.of_N (v_lnpw v))
-                  (Z.of_nat (length (sp_positions s))) (Z.of_N (v_st v)) = WOk tt /\
-    (forall pos r, In (pos, r) (sp_reveals s) ->
-       salt_ok (sc_sig (rv_slot r)) (sp_salt s) = true /\
-       commit_ok (sc_sig (rv_slot r)) = true /\
-       sig_ok (pt_pk (rv_part r)) round data (sc_sig (rv_slot r)) = true) /\
-    vcs_verify (sp_sigcommit s) (sig_claims (sp_reveals s)) (sp_sigproofs s) = true /\
-    vcp_verify (v_partcom v) (part_claims (sp_reveals s)) (sp_partproofs s) = true /\
-    coins_in_slots (seed_of v data s) (sp_reveals s) (sp_positions s) 0.
-
   Theorem verify_ok_iff : forall v round data s,
     verifyM v round data s = SOk tt <-> accept_facts v round data s.
   Proof.
-    intros v round data s. unfold verify, accept_facts, seed_of.
+    intros v round data s. unfold verify, StateProofSpec.accept_facts, seed_of.
     destruct (N.ltb_spec MaxTreeDepth (prf_depth (sp_sigproofs s))) as [D1|D1].
     { split; [discriminate|]. intros (A & _). lia_. }
     destruct (N.ltb_spec MaxTreeDepth (prf_depth (sp_partproofs s))) as [D2|D2].
@@ -197,17 +145,7 @@ Section Proofs.
   Variable vcp_posmap : list (participant PK) -> Prf -> N -> N.
   Variable vcs_treedepth : list (slotC Sig) -> N.
   Variable vcs_posmap : list (slotC Sig) -> Prf -> N -> N.
-
-  (* what one accepted reveal sequence entry means *)
-  Definition backed (parts : list (participant PK)) (round : N) (data : Msg) (v : verifier Dig)
-             (s : stateproof PK Sig Dig Prf) (j : nat) (pos : N) : Prop :=
-    exists r, lookup pos (sp_reveals s) = Some r /\
-      (* the committed participant at that position ... *)
-      nth_error parts (N.to_nat (vcp_posmap parts (sp_partproofs s) pos)) = Some (rv_part r) /\
-      (* ... signed the message for the round ... *)
-      sig_ok (pt_pk (rv_part r)) round data (sc_sig (rv_slot r)) = true /\
-      (* ... and the j-th coin falls into its weight interval *)
-      sc_L (rv_slot r) <= coin (seed_of v data s) j < sc_L (rv_slot r) + pt_weight (rv_part r).
+  Local Notation backed := (StateProofSpec.backed sig_ok coin vcp_posmap).
 
   Theorem accept_sound : forall parts v round data s,
     vc_sound vcp_root vcp_verify prf_depth vcp_treedepth vcp_posmap ->
@@ -280,7 +218,7 @@ Section Proofs.
        sig_ok (pt_pk (rv_part r)) round' data (sc_sig (rv_slot r))) ->
     (verifyM v round data s = SOk tt <-> verifyM v round' data s = SOk tt).
   Proof.
-    intros v round round' data s He. rewrite !verify_ok_iff. unfold accept_facts.
+    intros v round round' data s He. rewrite !verify_ok_iff. unfold StateProofSpec.accept_facts.
     split; intros (A & B & C & D & E & F & G); repeat split; auto;
       try (destruct (D pos r H) as (? & ? & ?); assumption).
     - destruct (D pos r H) as (? & ? & X). rewrite <- (He pos r H). exact X.
@@ -360,10 +298,6 @@ Section Proofs.
   (* REFUTED clause "tampered reveal position": Verify sees positions only as map keys, so any
      renaming of the positions that the two vector-commitment proofs (with whatever TreeDepth)
      accept is accepted; C37_vc_depth_position_confusion_refuted provides such proofs. *)
-  Definition relabel (f : N -> N) (s : stateproof PK Sig Dig Prf) (sp' pp' : Prf) : stateproof PK Sig Dig Prf :=
-    mkSP (sp_sigcommit s) (sp_sw s) sp' pp' (sp_salt s)
-         (map (fun pr => (f (fst pr), snd pr)) (sp_reveals s)) (map f (sp_positions s)).
-
   Lemma lookup_relabel : forall (f : N -> N) (rv : list (N * reveal PK Sig)) pos,
     (forall a b, In a (map fst rv) -> In b (map fst rv) -> f a = f b -> a = b) ->
     In pos (map fst rv) ->
@@ -389,7 +323,7 @@ Section Proofs.
     intros v round data s f sp' pp' H Hinj D1 D2 V1 V2.
     apply verify_ok_iff in H. apply verify_ok_iff.
     destruct H as (_ & _ & HW & HR & _ & _ & HC).
-    unfold accept_facts, relabel, seed_of in *. cbn [sp_sigproofs sp_partproofs sp_sw sp_positions sp_reveals sp_salt sp_sigcommit] in *.
+    unfold StateProofSpec.accept_facts, relabel, seed_of in *. cbn [sp_sigproofs sp_partproofs sp_sw sp_positions sp_reveals sp_salt sp_sigcommit] in *.
     rewrite map_length. repeat split; auto.
     1-3: apply in_map_iff in H; destruct H as ([k0 r0] & E & HI); cbn [fst snd] in E; inversion E; subst;
          destruct (HR k0 r HI) as (? & ? & ?); assumption.
@@ -400,3 +334,56 @@ Section Proofs.
     apply lookup_In in EL. change p0 with (fst (p0, r)). apply in_map. exact EL.
   Qed.
 End Proofs.
+
+(* ================================================================ 4. ValidateStateProof *)
+Section Validate.
+  Variables PK Sig Msg Dig Prf : Type.
+  Variable ln_approx : N -> option N.
+  Variable inner : verifier Dig -> N -> Msg -> stateproof PK Sig Dig Prf -> spres unit.
+
+  Theorem validate_ok_iff : forall (c : vctx Dig) s atRound msg,
+    validate_with ln_approx inner c s atRound msg = SOk tt <->
+    c_interval c <> 0 /\ c_last c mod c_interval c = 0 /\
+    acceptableWeight (c_interval c) (c_threshold c) (c_total c) (c_last c) atRound <= sp_sw s /\
+    exists pw lnpw, muldiv (c_total c) (c_threshold c) (2 ^ 32) = (pw, false) /\
+      ln_approx pw = Some lnpw /\
+      inner (mkVerifier (c_strength c) lnpw (c_voters c)) (c_last c) msg s = SOk tt.
+  Proof.
+    intros c s atRound msg. unfold validate_with.
+    destruct (N.eqb_spec (c_interval c) 0) as [E0|E0].
+    { split; [discriminate|]. intros (A & _). contradiction. }
+    destruct (N.eqb_spec (c_last c mod c_interval c) 0) as [E1|E1]; cbn [negb].
+    2:{ split; [discriminate|]. intros (_ & A & _). contradiction. }
+    destruct (N.ltb_spec (sp_sw s) (acceptableWeight (c_interval c) (c_threshold c) (c_total c) (c_last c) atRound)) as [E2|E2].
+    { split; [discriminate|]. intros (_ & _ & A & _). lia. }
+    destruct (muldiv (c_total c) (c_threshold c) (2 ^ 32)) as [pw ovf] eqn:EM.
+    destruct ovf.
+    { split; [discriminate|]. intros (_ & _ & _ & pw' & l' & A & _). discriminate. }
+    destruct (ln_approx pw) as [lnpw|] eqn:EL.
+    - split.
+      + intros H. repeat split; auto. exists pw, lnpw. auto.
+      + intros (_ & _ & _ & pw' & l' & A & B & C). inversion A; subst pw'. rewrite EL in B. inversion B; subst l'. exact C.
+    - split; [discriminate|]. intros (_ & _ & _ & pw' & l' & A & B & _). inversion A; subst pw'. congruence.
+  Qed.
+End Validate.
+
+(* the weight ValidateStateProof demands lies between the proven weight and the total online
+   weight (so a proof it accepts carries at least the proven weight) *)
+Lemma acceptable_bounds : forall interval threshold total last fv pw,
+  total < W64 -> muldiv total threshold (2 ^ 32) = (pw, false) -> pw <= total ->
+  pw <= acceptableWeight interval threshold total last fv <= total.
+Proof.
+  intros interval threshold total last fv pw Ht EM Hle. unfold acceptableWeight.
+  destruct (N.eqb_spec (fv - last) 0); [lia|].
+  destruct (N.eqb_spec (fv - last - interval / 2) 0); [lia|].
+  rewrite EM. cbn [orb]. destruct (N.ltb_spec total pw); [lia|].
+  destruct (N.leb_spec (interval / 2) (fv - last - interval / 2)); [lia|].
+  set (half := interval / 2) in *. set (off := fv - last - half) in *.
+  unfold muldiv.
+  assert (Hq : (total - pw) * (half - off) / half <= total - pw).
+  { apply N.div_le_upper_bound; [lia|]. rewrite N.mul_comm. apply N.mul_le_mono_r. lia. }
+  remember ((total - pw) * (half - off) / half) as q eqn:Eq. clear Eq.
+  destruct (N.leb_spec W64 q); [lia|].
+  rewrite N.mod_small by lia.
+  destruct (N.leb_spec W64 (pw + q)); lia.
+Qed.
